@@ -306,6 +306,16 @@ def parse_regex(src):
                 neg = True
             chars = set()
             while peek() != "]":
+                if src.startswith("[:", pos[0]) and ":]" in src[pos[0]:]:
+                    end = src.index(":]", pos[0])
+                    name = src[pos[0] + 2:end]
+                    posix = {"word": ALNUM | frozenset("_"), "alnum": ALNUM, "digit": DIGIT, "space": frozenset(" \t\n\r"),
+                             "alpha": ALNUM - DIGIT, "upper": frozenset(c_ for c_ in ALNUM if c_.isupper()), "lower": frozenset(c_ for c_ in ALNUM if c_.islower())}
+                    if name not in posix:
+                        raise ValueError("character class [:%s:] in %r" % (name, src))
+                    chars |= set(posix[name])
+                    pos[0] = end + 2
+                    continue
                 c = eat()
                 if c == "\\":
                     e = esc(eat())
